@@ -146,6 +146,11 @@ def check_uncompute(ctx: Ctx):
         ctx.undecided(fi.short, f"gates_computed is rebuilt from `{norm(core2)}`, which is not a list appended to in the replay loop: outside the tables")
     else:
         ctx.check(in_else and (par + par2) % 2 == 0, "MP-rebuild", fi, "gates_computed = gates not replayed, original order", f"{par}+{par2} reversals", f"gates_computed is rebuilt from `{norm(core2)}` ({par}+{par2} reversals, kept under {fk if keep_app and apps else '?'}): it must hold exactly the non-replayed gates in their original order (a later uncompute would replay in the wrong order or replay undone gates)", st[0])
+    # TS-REPLAY: a gate that stays recorded for a later replay must not be controlled by a qubit released here
+    if keep_app and apps:
+        fk_all = [(norm(e), pol) for e, pol in guard_facts(fi, keep_app[0], duals=True)]
+        looks_at_controls = any(ws in f and f"{ws}[-1]" not in f for f, pol in fk_all) or any(f"{ws}[:-1]" in f or f"{ws}[0:-1]" in f for f, pol in fk_all)
+        ctx.check(looks_at_controls, "TS-REPLAY", fi, "gates kept for a later replay are not controlled by a qubit released now", "", f"a gate is kept in gates_computed whenever its TARGET `{ws}[-1]` is not being uncomputed; its controls are not looked at, so gates controlled by the ancillas released here stay recorded and are replayed by the final pass when those qubits hold something else (they are recycled by get_free_ancilla, possibly as an output qubit)", keep_app[0])
     # marked set handling
     txt = [norm(n) for n in fi.body]
     upd = [n for n in ast.walk(fi.node) if (isinstance(n, (ast.Assign, ast.AugAssign)) and norm(n.targets[0] if isinstance(n, ast.Assign) else n.target) == "self.marked_ancillas") or (isinstance(n, ast.Call) and isinstance(n.func, ast.Attribute) and norm(n.func.value) == "self.marked_ancillas" and n.func.attr in ("clear", "difference_update", "discard", "remove"))]
